@@ -21,10 +21,10 @@ CHECKS = {
          "Partial: per-operation transmit/receive theorems (model bytes = spec encoding for all field values) are not yet proved - that clause is decided by the correspondence against Spec/FeSpec.v only; proxy and GPU channels: constants, layouts and header only. Trusted: Coq kernel, rs2v, Spec/WireConsts.v + Spec/FeSpec.v transcription, extraction + driver, harness.",
          "Coq proof (finite table equalities over regenerated tables; all-values header lemma) + byte-exact differential correspondence against an independent spec encoder", "DESIGN.md section 7 C01"),
  "C02": ("Model-level theorems (Props/C02.v): locally rejected calls write nothing and keep the state; per request code exactly one handler of the specified name (regenerated arm table); every frontend operation sends exactly its own code (regenerated table); at most one reply per request. The end-to-end clause is decided by correspondence: family fe (request bytes = spec encoding of the caller's arguments, local rejections silent) and family be (handler invoked with the decoded arguments and the same descriptors, by inode).",
-         "Partial: no composed session theorem yet (frontend model o transport o backend model); the equality of arguments end to end rests on the two byte-exact correspondences against the same specification encoding. Trusted base as C01/C04.",
+         "Partial: no composed session theorem yet (the executable composition frontend model o backend model exists - Model/Run.v run_sess - and is tied by family sess, real Frontend against real BackendReqHandler, judged by Spec/SessSpec.v: exactly one invocation with equal arguments and the same files); the all-inputs guarantee for the composition rests on that sampled tie plus the two byte-exact correspondences against the same specification encoding. Trusted base as C01/C04.",
          "Coq proof (model lemmas + finite table proofs) + differential correspondence on both endpoints against one spec encoding", "DESIGN.md section 7 C02"),
  "C03": ("Model-level theorems (Props/C03.v): a value returned by a reply-bearing call is decoded from a header-valid REPLY carrying the request's own code; an acknowledged operation succeeds only on a zero status; the backend's acknowledgement is 0 iff the handler succeeded. Correspondence: family fe with conformant and failure replies (non-zero status, zero-size config, missing file, 0x101 state) judged by Spec/FeSpec.v (returned values = decoded reply; failures are errors); the stream ends after the scripted reply, so a call that would wait shows up as an error instead of hanging.",
-         "Partial: 'in bounded time' against a live backend that keeps serving is not yet exercised by a real-backend session family (candidate finding F3: GET_CONFIG on handler failure). Trusted base as C01/C04.",
+         "Partial: 'in bounded time' is a watchdog (0.7 s) in family sess (real Frontend against the real, still-serving BackendReqHandler; this is how F3 was found and is now checked) and 'the reply suffices for the call to return' in the session model; no liveness theorem. Trusted base as C01/C04.",
          "Coq proof (soundness lemmas of the receive paths) + differential correspondence", "DESIGN.md section 7 C03"),
  "C06": ("Theorems (Props/C06.v): for every byte stream and segmentation, recv_reply / wait_for_ack succeed only if the consumed bytes are a header-valid REPLY with the request's code, no descriptors, valid body (and zero status for acks). Correspondence: family fe replays, for every operation, the conformant reply mutated field by field (code, each flag bit, version, size, body, 0..3 descriptors, truncation, garbage, silence) against the real Frontend; Spec/FeSpec.v flags any accepted non-reply.",
          "Partial: the proxy, GPU proxy and the frontend's server for backend-initiated requests are not yet covered (planned with C18). The size field of fixed-size replies is not compared by the code; the property does not list it and the check does not demand it. Trusted base as C01.",
@@ -43,7 +43,7 @@ m = {
  "engines": [{"name": "coq-proof+correspondence", "path": "check", "serves_properties": sorted(CHECKS),
               "kind_free_text": "Coq 8.16 theorems over definitions regenerated from /repo by the translator rs2v and over hand models, plus differential correspondence (real crates vs extracted model vs executable spec)"}],
  "checks": [],
- "notes": "see DESIGN.md; known_findings.json lists genuine defects (fixed: F1, F4, F8, F10, F11)",
+ "notes": "see DESIGN.md; known_findings.json lists genuine defects (fixed: F1, F3, F4, F8, F10, F11)",
  "not_applicable": [],
 }
 for pid in sorted(CHECKS):
